@@ -98,6 +98,15 @@ func NewMerger(less func(a, b *sam.Record) bool, src ...*Reader) (*Merger, error
 		m.readers[i] = &readers[i]
 	}
 	if m.less != nil {
+		// A source without a first record (it is empty, or its
+		// first read failed) has nothing to be ordered by.
+		live := m.readers[:0]
+		for _, r := range m.readers {
+			if r.head != nil {
+				live = append(live, r)
+			}
+		}
+		m.readers = live
 		heap.Init((*bySortOrderAndID)(m))
 	}
 
